@@ -1,7 +1,9 @@
 #!/venv/bin/python
 """Run checks against seeded mutants on scratch copies (development aid).
 
-usage: seed_run.py [--props C01,C02] [--all-checks] [mutant ids...]
+usage: seed_run.py [--props C01,C02] [--all-checks | --smart] [mutant ids...]
+--smart: the mutant's own check plus the checks EXPECTED.json lists as reporting it; every check for a mutant that has no
+entry there or that nothing reported (regression run: a fifth of the cost of --all-checks).
 For each mutant: copy /repo/pycaption to a scratch dir, apply patch, run
 `VERIF_REPO=<scratch> ./check <prop>` for the mutant's own property (or for every
 implemented property with --all-checks). Prints which checks report a VIOLATION.
@@ -38,7 +40,14 @@ def run_one(mid, props):
 def main():
     args = sys.argv[1:]
     allchecks = "--all-checks" in args
-    args = [a for a in args if a != "--all-checks"]
+    smart = "--smart" in args
+    args = [a for a in args if a not in ("--all-checks", "--smart")]
+    expected = {}
+    if smart:
+        try:
+            expected = json.load(open(os.environ.get("SEED_EXPECTED", f"{VERIF}/seeded/EXPECTED.json")))
+        except (OSError, ValueError):
+            expected = {}
     props = None
     ids = []
     i = 0
@@ -63,6 +72,9 @@ def main():
     for m in mids:
         own = m.split("-")[0]
         ps = props or (impl if allchecks else ([own] if own in impl else []))
+        if smart and not props:
+            rep = (expected.get(m) or {}).get("reported_by") or []
+            ps = sorted(set([own] + rep)) if rep else impl
         if ps:
             jobs.append((m, ps))
     with ThreadPoolExecutor(int(os.environ.get("SEED_JOBS", "16"))) as ex:
